@@ -143,54 +143,121 @@ class Ctx:
 # ---------------------------------------------------------------------------
 
 
-def _worker_init(repo: str, envs: Dict[str, str]):
-  os.environ.update(envs)
-  sys.path.insert(0, repo)
-  import warp as wp
+class Crash:
+  """Result of an item whose worker process died (signal / abort) while running it."""
 
-  wp.config.quiet = True
-  try:
-    wp.config.log_level = wp.LOG_WARNING  # type: ignore[attr-defined]
-  except Exception:
-    pass
+  def __init__(self, returncode, stderr_tail):
+    self.returncode, self.stderr_tail = returncode, stderr_tail
+
+  def __repr__(self):
+    return f"Crash(returncode={self.returncode})"
 
 
-def _call(args):
-  modname, fname, item = args
-  import importlib
+def pmap(func: Callable, items: Iterable[Any], nproc: int = 14, envs: Optional[Dict[str, str]] = None, crash_ok: bool = False,
+         item_timeout: float = 900.0) -> List[Any]:
+  """Run top-level function func over items in worker subprocesses (mbt.worker), order preserved.
 
-  mod = importlib.import_module(modname)
-  try:
-    return ("ok", getattr(mod, fname)(item))
-  except Exception:
-    return ("exc", traceback.format_exc())
-
-
-def pmap(func: Callable, items: Iterable[Any], nproc: int = 14, envs: Optional[Dict[str, str]] = None, chunksize: int = 1) -> List[Any]:
-  """Run top-level function func over items in spawned worker processes, order preserved.
-
-  A Python exception in a worker is machinery failure unless func catches it itself.
+  A Python exception in a worker is machinery failure.  A worker that dies while running an item yields a
+  Crash object for that item when crash_ok, else machinery failure.
   """
-  import multiprocessing as mp
+  import pickle
+  import selectors
+  import struct
+  import tempfile
 
   items = list(items)
   if not items:
     return []
   nproc = max(1, min(nproc, len(items)))
-  args = [(func.__module__, func.__name__, it) for it in items]
-  if nproc == 1:
-    _worker_init(REPO, envs or {})
-    res = [_call(a) for a in args]
-  else:
-    ctx = mp.get_context("spawn")
-    with ctx.Pool(nproc, initializer=_worker_init, initargs=(REPO, envs or {})) as pool:
-      res = pool.map(_call, args, chunksize=chunksize)
-  out = []
-  for (st, val), it in zip(res, items):
-    if st == "exc":
-      raise RuntimeError(f"worker failed on {json.dumps(it, default=str)[:500]}:\n{val}")
-    out.append(val)
-  return out
+  e = dict(os.environ)
+  e.update(envs or {})
+  e["PYTHONPATH"] = REPO + os.pathsep + VERIF + os.pathsep + e.get("PYTHONPATH", "")
+  results: List[Any] = [None] * len(items)
+  pending = list(range(len(items)))[::-1]
+  sel = selectors.DefaultSelector()
+
+  class W:
+    pass
+
+  def spawn():
+    w = W()
+    w.err = tempfile.TemporaryFile()
+    w.p = subprocess.Popen([sys.executable, "-m", "mbt.worker"], stdin=subprocess.PIPE, stdout=subprocess.PIPE, stderr=w.err, env=e, cwd="/")
+    w.item = None
+    w.buf = b""
+    w.t0 = 0.0
+    os.set_blocking(w.p.stdout.fileno(), False)
+    sel.register(w.p.stdout, selectors.EVENT_READ, w)
+    return w
+
+  def feed(w):
+    if not pending:
+      try:
+        w.p.stdin.close()
+      except Exception:
+        pass
+      w.item = None
+      return
+    i = pending.pop()
+    w.item, w.t0 = i, time.time()
+    b = pickle.dumps((func.__module__, func.__name__, items[i]))
+    try:
+      w.p.stdin.write(struct.pack("<I", len(b)) + b)
+      w.p.stdin.flush()
+    except BrokenPipeError:
+      pass
+
+  workers = [spawn() for _ in range(nproc)]
+  for w in workers:
+    feed(w)
+  live = len(workers)
+  failure = None
+  while live > 0:
+    evs = sel.select(timeout=5.0)
+    now = time.time()
+    if not evs:
+      for w in workers:
+        if w.item is not None and w.p.poll() is None and now - w.t0 > item_timeout:
+          w.p.kill()
+      continue
+    for key, _ in evs:
+      w = key.data
+      chunk = w.p.stdout.read()
+      if chunk is None:
+        continue
+      if chunk:
+        w.buf += chunk
+        while len(w.buf) >= 4:
+          (n,) = struct.unpack("<I", w.buf[:4])
+          if len(w.buf) < 4 + n:
+            break
+          st, val = pickle.loads(w.buf[4 : 4 + n])
+          w.buf = w.buf[4 + n :]
+          if st == "exc":
+            failure = failure or f"worker failed on {json.dumps(items[w.item], default=str)[:400]}:\n{val}"
+          results[w.item] = val
+          feed(w)
+      else:
+        # EOF: worker exited
+        sel.unregister(w.p.stdout)
+        rc = w.p.wait()
+        w.err.seek(0)
+        tail = w.err.read()[-1500:].decode(errors="replace")
+        w.err.close()
+        live -= 1
+        if w.item is not None:
+          results[w.item] = Crash(rc, tail)
+          if not crash_ok:
+            failure = failure or f"worker crashed (rc={rc}) on {json.dumps(items[w.item], default=str)[:400]}:\n{tail}"
+          w.item = None
+          if pending:
+            nw = spawn()
+            workers.append(nw)
+            live += 1
+            feed(nw)
+  if failure:
+    raise RuntimeError(failure)
+  return results
 
 
 def run_isolated(code: str, timeout: int = 600, envs: Optional[Dict[str, str]] = None) -> subprocess.CompletedProcess:
